@@ -16,6 +16,8 @@ PsFun(t) == [n \in {t.ps[k].name : k \in 1..Len(t.ps)} |-> t.ps[CHOOSE k \in 1..
 Clauses(t) ==
   << <<"only-name-tables-differ", "P", Rng(t.diffTables) \subseteq {"post", "CFF ", "CFF2"}>>,
      <<"same-glyph-count",        "P", Len(t.on) = Len(t.off)>>,
+     \* (the CFF table carries names and outlines together: its bytes may differ, what each glyph INDEX draws may not)
+     <<"outlines-by-index-unchanged", "P", t.outlinesSame>>,
      <<"names-unique",            "P", Distinct(t.on)>>,
      <<"no-rename-when-off",      "P", ~t.expectRename => t.on = t.off>>,
      <<"legal-characters",        "P", t.expectRename => \A k \in 1..Len(t.on) :
